@@ -27,6 +27,12 @@ Definition depol_state (n : nat) (p : F) (v : rvec F) : rvec F := mv n (depol_hs
 Definition depol_povm_elem (n : nat) (p : F) (v : rvec F) : rvec F := fun b => sumn n (fun a => v a * depol_hs p a b).
 Definition depol_gate (n : nat) (p : F) (HS : rmat F) : rmat F := mmul n (depol_hs p) HS.
 Definition depol_mprocess (n : nat) (p : F) (HSs : list (rmat F)) : list (rmat F) := map (depol_gate n p) HSs.
+(* NOT what the code computes: the noise channel on the OTHER side,  compose(gate, dp) : hs' = hs @ hs_dp  (noise BEFORE the gate,
+   G o D_p).  Only used to state that the side matters (Proofs/C15_Depol.v): for a unital trace-preserving G both sides
+   coincide, for a non-unital G this is (1-p) G + p G o D, not the stated mixture. *)
+Definition depol_gate_wrong_side (n : nat) (p : F) (HS : rmat F) : rmat F := mmul n HS (depol_hs p).
+(* unital: the map fixes the maximally mixed operator (first COLUMN of the HS matrix = e_0) *)
+Definition hs_unital (n : nat) (HS : rmat F) := forall a, (a < n)%nat -> HS a 0%nat = (if Nat.eqb a 0 then 1 else 0).
 Definition depol_povm (n : nat) (p : F) (vs : list (rvec F)) : list (rvec F) := map (depol_povm_elem n p) vs.
 
 (* the stated mixtures, coefficient level: keep the B_0 component, shrink the others by (1-p) *)
